@@ -140,3 +140,43 @@ func VH_taproot_sighash() {
 	}
 	vReach("valid")
 }
+
+// C07(3'): the public tapscript helper commits to what the caller asked for: CalcTapscriptSignaturehash with a
+// caller-supplied code-separator position (and optionally an annex) equals the raw BIP341/342 digest for that
+// position, leaf and annex; without one it commits to the blank position 0xffffffff - for every hash type, position
+// and leaf script byte.  (The raw digest itself is compared with the specification by VH_taproot_sighash.)
+//verif:opts reach=end
+func VH_tapscript_sighash_helper_options() {
+	tx := &wire.MsgTx{Version: 2, LockTime: vNondetU32("locktime")}
+	f := &vTapFetcher{tx: tx}
+	ti := &wire.TxIn{Sequence: vNondetU32("seq")}
+	ti.PreviousOutPoint.Hash[0] = 1
+	tx.TxIn = append(tx.TxIn, ti)
+	f.amounts = append(f.amounts, vNondetI64("amount"))
+	f.scripts = append(f.scripts, append([]byte{0x51, 0x20}, vNondetBytes("outkey", 32)...))
+	tx.TxOut = append(tx.TxOut, &wire.TxOut{Value: vNondetI64("value"), PkScript: []byte{0x51}})
+	ht := SigHashType([]byte{0x00, 0x01, 0x02, 0x03, 0x81, 0x82, 0x83}[vNondetLen("hashType", 6)])
+	leaf := NewBaseTapLeaf([]byte{0x51, vNondetU8("leafByte"), 0xab, 0xac})
+	leafHash := leaf.TapHash()
+	hashes := NewTxSigHashes(tx, f)
+	var callerOpts, rawOpts []TaprootSigHashOption
+	pos := uint32(0xffffffff)
+	if vNondetBool("callerGivesPosition") {
+		pos = vNondetU32("codeSepPos")
+		callerOpts = append(callerOpts, WithBaseTapscriptVersion(pos, leafHash[:]))
+	}
+	rawOpts = append(rawOpts, WithBaseTapscriptVersion(pos, leafHash[:]))
+	if vNondetBool("annex") {
+		annex := []byte{0x50, vNondetU8("annexByte")}
+		callerOpts = append(callerOpts, WithAnnex(annex))
+		rawOpts = append(rawOpts, WithAnnex(annex))
+	}
+	got, err := CalcTapscriptSignaturehash(hashes, ht, tx, 0, f, leaf, callerOpts...)
+	want, werr := calcTaprootSignatureHashRaw(hashes, ht, tx, 0, f, rawOpts...)
+	vAssert(err == nil && werr == nil, "both digests are defined for a valid hash type")
+	vAssert(len(got) == 32 && len(want) == 32, "32-byte digests")
+	for i := range got {
+		vAssert(got[i] == want[i], "the helper's digest is the BIP342 digest for the caller's code-separator position and annex")
+	}
+	vReach("end")
+}
